@@ -123,8 +123,14 @@ def run(tier, seed):
     # ---------------- oracle: behaviour equals str's
     nontrivial = set()
     per_class_redefined = {}
-    nobj = len(objs) if tier == "thorough" else min(len(objs), 60)
-    for x in objs[:nobj]:
+    if tier == "thorough":
+        chosen = objs
+    else:
+        # the first objects of every kind of text: ASCII, non-ASCII, lone surrogates, digits-only ... (not just the first 60 objects)
+        special = [o for o in objs if any(ord(ch) > 127 for ch in str(o)) or str(o).strip().isdigit() or not str(o)]
+        rest = [o for o in objs if not any(o is sp for sp in special)]
+        chosen = special[:36] + rest[:48]
+    for x in chosen:
         s = str(x)
         cn = type(x).__name__
         for name in names:
